@@ -4,7 +4,10 @@
       the fold of step_packet over the packets of the expected recovery set;
    2. layout_invariant: two files made of the same SET of packets load to observationally
       equivalent states (or neither loads);
-   3. layout_invariant_index: the same for the index file, whose first packet fixes the set id. *)
+   3. layout_invariant_index: the same for the index file, whose first packet fixes the set id;
+   4. read_file_frames_vol, layout_invariant_vol: 1 and 2 for read_file_vol, the loop as LoadParityData runs it
+      on a recovery file (started from pf_vol0: no creator packet is required);
+   5. read_file_ok_vol: whatever read_file (Some sid) accepts, read_file_vol accepts with the same result. *)
 From Coq Require Import Lia ZifyN ZifyNat.
 From Gopar Require Import Model.Base Model.GF16 Model.Matrix Model.RS16 Model.CRC Model.GoPath Model.FS Model.Par2
      Proofs.Par2Facts Proofs.Par2Create.
@@ -213,13 +216,12 @@ Section Layout.
   Lemma read_file_go_S fuel buf setid found f :
     read_file_go md5 (S fuel) buf setid found f =
       match read_next_packet md5 buf with
-      | NPErr => RFErr
-      | NPEof =>
-          if negb found then RFNoPackets
-          else match pf_client f, setid with
-               | Some _, Some sid => RFOk sid f
-               | _, _ => RFErr
-               end
+      | NPErr =>
+          match find_magic (tl buf) with
+          | Some rest => read_file_go md5 fuel rest setid found f
+          | None => rf_finish setid found f
+          end
+      | NPEof => rf_finish setid found f
       | NPPacket psid ptype body rest =>
           let skip := match setid with Some sid => negb (bytes_eqb psid sid) | None => false end in
           if skip then read_file_go md5 fuel rest setid found f
@@ -265,7 +267,7 @@ Section Layout.
   Proof.
     induction l as [|p l IH]; intros fuel found f Hwf Hfuel.
     - destruct fuel as [|fuel]; [cbn [length] in Hfuel; lia|].
-      rewrite read_file_go_S. change (frames []) with (@nil N). cbn [read_next_packet fold_left finish].
+      rewrite read_file_go_S. change (frames []) with (@nil N). cbn [read_next_packet fold_left finish]. unfold rf_finish.
       destruct found; cbn [negb]; [|reflexivity].
       destruct (pf_client f); reflexivity.
     - destruct fuel as [|fuel]; [cbn [length] in Hfuel; lia|].
@@ -873,8 +875,155 @@ Section Layout.
     rewrite (read_file_index p2 l2 (Forall_inv W2)), S2.
     apply (layout_invariant sid (p1 :: l1) (p2 :: l2) f1 W1 W2 Hm Hc H).
   Qed.
+  (** ** 4. recovery files (read_file_vol, what LoadParityData calls): the same loop started from pf_vol0,
+      the state in which a creator packet counts as seen *)
+
+  Definition with_client (c : option bytes) (f : pfile) : pfile :=
+    {| pf_client := c; pf_main := pf_main f; pf_fdesc := pf_fdesc f; pf_ifsc := pf_ifsc f; pf_recv := pf_recv f |}.
+
+  (* the state of the volume loop that corresponds to the state f of the ordinary loop: the client is the one
+     of the last creator packet when there was one, the initial (empty) one otherwise *)
+  Definition vol_client (f : pfile) : pfile :=
+    with_client (match pf_client f with Some c => Some c | None => Some [] end) f.
+
+  Lemma vol_client_empty : vol_client pf_empty = pf_vol0.
+  Proof. reflexivity. Qed.
+
+  Lemma vol_client_some f c : pf_client f = Some c -> vol_client f = f.
+  Proof. intros H. destruct f as [cl mn fd ic rv]. cbn [pf_client] in H. subst cl. reflexivity. Qed.
+
+  Lemma step_packet_vol f p : step_packet (vol_client f) p = option_map vol_client (step_packet f p).
+  Proof.
+    unfold step_packet.
+    destruct (bytes_eqb (pk_type p) TYPE_CREATOR); [reflexivity|].
+    destruct (bytes_eqb (pk_type p) TYPE_MAIN).
+    { destruct (read_main (pk_body p)) as [m|e|q]; reflexivity. }
+    destruct (bytes_eqb (pk_type p) TYPE_FDESC).
+    { destruct (read_fdesc md5 (pk_body p)) as [[id d]|e|q]; reflexivity. }
+    destruct (bytes_eqb (pk_type p) TYPE_IFSC).
+    { destruct (read_ifsc (pk_body p)) as [[id ps]|e|q]; reflexivity. }
+    destruct (bytes_eqb (pk_type p) TYPE_RECV).
+    { destruct (read_recv (pk_body p)) as [[e d]|e|q]; try reflexivity.
+      change (pf_recv (vol_client f)) with (pf_recv f).
+      destruct (assoc_n (pf_recv f) e) as [d'|]; [|reflexivity].
+      destruct (bytes_eqb d' d); reflexivity. }
+    reflexivity.
+  Qed.
+
+  Definition vol_state (st : option (pfile * bool)) : option (pfile * bool) :=
+    match st with Some (f, found) => Some (vol_client f, found) | None => None end.
+
+  Lemma lstep_vol sid st p : lstep sid (vol_state st) p = vol_state (lstep sid st p).
+  Proof.
+    destruct st as [[f found]|]; [|reflexivity]. cbn [vol_state lstep].
+    destruct (bytes_eqb (pk_set p) sid); [|reflexivity].
+    rewrite step_packet_vol. destruct (step_packet f p) as [f'|]; reflexivity.
+  Qed.
+
+  Lemma fold_lstep_vol sid : forall l st, fold_left (lstep sid) l (vol_state st) = vol_state (fold_left (lstep sid) l st).
+  Proof.
+    induction l as [|p l IH]; intros st; [reflexivity|].
+    cbn [fold_left]. rewrite lstep_vol. apply IH.
+  Qed.
+
+  (* the fold of the volume loop *)
+  Definition run_vol (sid : bytes) (l : list apkt) : option (pfile * bool) :=
+    fold_left (lstep sid) l (Some (pf_vol0, false)).
+
+  Lemma run_vol_run sid l : run_vol sid l = vol_state (run sid l).
+  Proof. unfold run_vol, run. rewrite <- fold_lstep_vol. reflexivity. Qed.
+
+  Theorem read_file_frames_vol : forall sid l, Forall wf_pkt l ->
+    read_file_vol md5 sid (frames l) =
+      match fold_left (fun (st : option (pfile * bool)) p =>
+               match st with
+               | None => None
+               | Some (f, found) => if bytes_eqb (pk_set p) sid
+                                    then match step_packet f p with Some f' => Some (f', true) | None => None end
+                                    else Some (f, found)
+               end) l (Some (pf_vol0, false)) with
+      | None => RFErr
+      | Some (f, false) => RFNoPackets
+      | Some (f, true) => match pf_client f with Some _ => RFOk sid f | None => RFErr end
+      end.
+  Proof.
+    intros sid l Hwf. unfold read_file_vol.
+    rewrite (read_file_go_frames sid l) by (try assumption; pose proof (frames_length l Hwf); lia).
+    reflexivity.
+  Qed.
+
+  Lemma read_file_vol_run sid l : Forall wf_pkt l -> read_file_vol md5 sid (frames l) = finish sid (run_vol sid l).
+  Proof. intros Hwf. rewrite (read_file_frames_vol sid l Hwf). reflexivity. Qed.
+
+  (* on a file of well-formed packets a recovery file is never rejected for want of a creator packet *)
+  Lemma finish_vol sid f : finish sid (vol_state (Some (f, true))) = RFOk sid (vol_client f).
+  Proof. cbn [vol_state finish]. unfold vol_client, with_client. cbn [pf_client]. destruct (pf_client f); reflexivity. Qed.
+
+  Lemma vol_client_equiv f g : pf_equiv f g -> pf_equiv (vol_client f) (vol_client g).
+  Proof.
+    intros (_ & Q2 & Q3 & Q4 & Q5). unfold pf_equiv, vol_client, with_client.
+    cbn [pf_client pf_main pf_fdesc pf_ifsc pf_recv].
+    split; [|split; [exact Q2|split; [exact Q3|split; [exact Q4|exact Q5]]]].
+    destruct (pf_client f), (pf_client g); split; discriminate.
+  Qed.
+
+  Theorem layout_invariant_vol : forall sid l1 l2 f1,
+    Forall wf_pkt l1 -> Forall wf_pkt l2 -> (forall p, In p l1 <-> In p l2) -> consistent sid l1 ->
+    read_file_vol md5 sid (frames l1) = RFOk sid f1 ->
+    exists f2, read_file_vol md5 sid (frames l2) = RFOk sid f2 /\ pf_equiv f1 f2.
+  Proof.
+    intros sid l1 l2 f1 W1 W2 Hm Hc H.
+    rewrite (read_file_vol_run sid l1 W1), run_vol_run in H.
+    destruct (run sid l1) as [[g1 fd1]|] eqn:E1; [|discriminate H].
+    destruct fd1; [|discriminate H].
+    rewrite finish_vol in H. injection H as <-.
+    destruct (run_invariant sid l1 l2 g1 true Hm Hc E1) as (g2 & E2 & Eq).
+    exists (vol_client g2). split; [|apply vol_client_equiv; exact Eq].
+    rewrite (read_file_vol_run sid l2 W2), run_vol_run, E2. apply finish_vol.
+  Qed.
+
+  (** ** 5. a file that loads as an index or ordinary file loads as a recovery file, to the same state
+      (any bytes, not only sequences of well-formed packets) *)
+  Lemma rf_finish_client_none setid found f s f' : pf_client f = None -> rf_finish setid found f <> RFOk s f'.
+  Proof. intros Hc. unfold rf_finish. rewrite Hc. destruct (negb found); discriminate. Qed.
+
+  Lemma read_file_go_client c : forall fuel buf setid found f s f',
+    pf_client f = None -> read_file_go md5 fuel buf setid found f = RFOk s f' ->
+    read_file_go md5 fuel buf setid found (with_client (Some c) f) = RFOk s f'.
+  Proof.
+    induction fuel as [|fuel IH]; intros buf setid found f s f' Hc H; [discriminate H|].
+    rewrite read_file_go_S in H. rewrite read_file_go_S.
+    destruct (read_next_packet md5 buf) as [| |psid ptype body rest].
+    - exfalso. exact (rf_finish_client_none _ _ _ _ _ Hc H).
+    - destruct (find_magic (tl buf)) as [rest|]; [(refine (IH _ _ _ _ _ _ _ H); exact Hc)|].
+      exfalso. exact (rf_finish_client_none _ _ _ _ _ Hc H).
+    - cbv zeta in H |- *.
+      match type of H with (if ?b then _ else _) = _ => destruct b end; [(refine (IH _ _ _ _ _ _ _ H); exact Hc)|].
+      destruct (bytes_eqb ptype TYPE_CREATOR); [exact H|].
+      destruct (bytes_eqb ptype TYPE_MAIN).
+      { destruct (read_main body) as [m|e|q]; try discriminate H. (refine (IH _ _ _ _ _ _ _ H); exact Hc). }
+      destruct (bytes_eqb ptype TYPE_FDESC).
+      { destruct (read_fdesc md5 body) as [[id d]|e|q]; try discriminate H. (refine (IH _ _ _ _ _ _ _ H); exact Hc). }
+      destruct (bytes_eqb ptype TYPE_IFSC).
+      { destruct (read_ifsc body) as [[id ps]|e|q]; try discriminate H. (refine (IH _ _ _ _ _ _ _ H); exact Hc). }
+      destruct (bytes_eqb ptype TYPE_RECV).
+      { destruct (read_recv body) as [[e d]|e|q]; try discriminate H.
+        change (pf_recv (with_client (Some c) f)) with (pf_recv f).
+        destruct (assoc_n (pf_recv f) e) as [d'|]; [|(refine (IH _ _ _ _ _ _ _ H); exact Hc)].
+        destruct (bytes_eqb d' d); [(refine (IH _ _ _ _ _ _ _ H); exact Hc)|discriminate H]. }
+      (refine (IH _ _ _ _ _ _ _ H); exact Hc).
+  Qed.
+
+  Theorem read_file_ok_vol : forall sid b s f, read_file md5 (Some sid) b = RFOk s f -> read_file_vol md5 sid b = RFOk s f.
+  Proof.
+    intros sid b s f H. unfold read_file in H. unfold read_file_vol.
+    exact (read_file_go_client [] _ _ _ _ pf_empty _ _ eq_refl H).
+  Qed.
 End Layout.
 
 Print Assumptions read_file_frames.
 Print Assumptions layout_invariant.
 Print Assumptions layout_invariant_index.
+Print Assumptions read_file_frames_vol.
+Print Assumptions layout_invariant_vol.
+Print Assumptions read_file_ok_vol.
